@@ -169,7 +169,9 @@ def search_real(chk, r, n, max_pto):
                 xsk = "F1"
             obs[f"{xsk}_total"] = [dict(x=0.1, Q2=20.0, y=0.5), dict(x=0.3, Q2=50.0, y=float(r.uniform(0.1, 1)))]
             sv = r.random() < 0.5
-            t = cards.theory(PTO=pto, RenScaleVar=sv, FactScaleVar=sv)
+            # target-mass corrected results carry *signed* propagated errors
+            tmc = r.choice([0, 0, 1]) if pto <= 1 and not any(k.split("_")[0] in ("FW",) for k in obs) else 0
+            t = cards.theory(PTO=pto, RenScaleVar=sv, FactScaleVar=sv, TMC=tmc)
             try:
                 out = realrun.run(t, cards.obs(obs, prDIS=process, ProjectileDIS="neutrino" if process == "CC" else "electron", interpolation_xgrid=cards.default_grid(7, 1e-2)))
             except Exception as e:
@@ -196,12 +198,47 @@ def search_real(chk, r, n, max_pto):
                     pb = cur.apply_pdf_alphas_alphaqed_xir_xif(pdf, lambda m: 0.2, lambda m: 0.0, 1.0, 1.0)
                     for k in pa:
                         for ra, rb in zip(pa[k], pb[k]):
-                            if ra["result"] != rb["result"]:
-                                problem = f"prediction of {k} differs"
+                            if ra["result"] != rb["result"] or ra["error"] != rb["error"]:
+                                problem = f"prediction (result or error) of {k} differs"
             except Exception as e:
                 problem = f"{type(e).__name__}: {e}"[:200]
-            sample = dict(format=fmt, cycles=cycles, process=process, pto=pto, sv=sv, observables={k: len(v) for k, v in obs.items()}, problem=problem)
+            sample = dict(format=fmt, cycles=cycles, process=process, pto=pto, sv=sv, TMC=tmc, observables={k: len(v) for k, v in obs.items()}, problem=problem)
             chk.search_case("real_output_roundtrip", problem is None, what=f"{fmt} round trip of a runner output: {problem}", data=sample, sample=sample)
+    finally:
+        shutil.rmtree(tmp, ignore_errors=True)
+
+
+def search_coexisting(chk, r, n):
+    """several outputs with *different* runcards dumped and loaded in one process: each loaded object
+    keeps its own content also after the others have been loaded"""
+    from yadism.output import Output
+
+    tmp = pathlib.Path(tempfile.mkdtemp(prefix="verif_c15c_"))
+    try:
+        for i in range(n):
+            outs, files = [], []
+            for j, (alphas, name, proc) in enumerate([(0.118, "F2_total", "NC"), (0.130, "F3_total", "CC"), (0.125, "FL_light", "EM")]):
+                t = cards.theory(PTO=1, alphas=alphas, TMC=1 if j == 2 else 0, XIR=1.0 + 0.5 * j)
+                o = cards.obs({name: [dict(x=0.1 + 0.1 * j, Q2=20.0 + j)]}, prDIS=proc, ProjectileDIS="neutrino" if proc == "CC" else "electron", interpolation_xgrid=cards.default_grid(6 + j, 1e-2))
+                outs.append(realrun.run(t, o))
+            fmts = [r.choice(["yaml", "tar"]) for _ in outs] if i else ["yaml", "yaml", "tar"]
+            loaded = []
+            for j, (out, fmt) in enumerate(zip(outs, fmts)):
+                if fmt == "tar":
+                    tp = tmp / f"c{i}_{j}.tar"
+                    out.dump_tar(tp)
+                    loaded.append(Output.load_tar(tp))
+                else:
+                    loaded.append(Output.load_yaml(io.StringIO(out.dump_yaml())))
+            problems = []
+            for j, (out, cur) in enumerate(zip(outs, loaded)):
+                p_ = same_output(out, cur)
+                if p_ is None and (cur.theory != out.theory or cur.theory.get("alphas") != out.theory.get("alphas")):
+                    p_ = "theory card"
+                if p_ is not None:
+                    problems.append(f"output #{j} ({fmts[j]}), inspected after all three were loaded: {p_}")
+            sample = dict(formats=fmts, problems=problems)
+            chk.search_case("several_outputs_loaded_in_one_process", not problems, what="; ".join(problems) or "-", data=sample, sample=sample if i == 0 else None)
     finally:
         shutil.rmtree(tmp, ignore_errors=True)
 
@@ -213,6 +250,7 @@ def run(tier):
     r = common.rng("C15")
     corr_layout(chk, r, 300 if thorough else 40)
     search_real(chk, r, 60 if thorough else 8, 2 if thorough else 1)
+    search_coexisting(chk, r, 4 if thorough else 1)
     chk.assumptions += [
         "numbers and tensors are opaque in the model: that yaml repr / npz preserve doubles bit for bit is yaml/numpy behaviour, exercised by the real round trips only",
         "tar round trip is proved for observables whose results share their order list (what the Runner produces and dump_tar asserts)",
